@@ -5,6 +5,7 @@ package cmd
 func init() {
 	vHarnesses["VerifC16Fault"] = VerifC16Fault
 	vHarnesses["VerifC16FormatFault"] = VerifC16FormatFault
+	vHarnesses["VerifC16RulesFilePerRule"] = VerifC16RulesFilePerRule
 }
 
 // the faulty assembly source of each fault class
@@ -111,4 +112,36 @@ func VerifC16FormatFault() {
 	vReach("formatted")
 	vAssert(err != nil, "C16 regex format reports success on a file with an unbalanced end marker")
 	vAssert(vReadFile(path) == in, "C16 regex format modifies a file it cannot format")
+}
+
+// C16 (--all, one rules file per rule): three rules live in three rules files; the rules file of ONE rule (first,
+// middle or last in the walk) is missing (kind 0) or ambiguous (kind 1) while the other rules update fine. The run
+// must not end with exit status 0 (an earlier failure must not be forgotten when later rules succeed).
+func VerifC16RulesFilePerRule() {
+	dir := vTempDir()
+	ctxt := c08Context(dir)
+	pos := vParam("position")
+	kind := vParam("kind")
+	ids := []string{"931100", "932100", "933100"}
+	for i := 0; i < 3; i++ {
+		vWriteFile(dir+"/regex-assembly/"+ids[i]+".ra", "a\n")
+		rule := "SecRule ARGS \"@rx old\" \\\n    \"id:" + ids[i] + ",\\\n    deny\"\n"
+		if i == pos && kind == 0 {
+			continue
+		}
+		vWriteFile(dir+"/rules/REQUEST-"+ids[i][:3]+"-X.conf", rule)
+		if i == pos && kind == 1 {
+			vWriteFile(dir+"/rules/REQUEST-"+ids[i][:3]+"-Y.conf", rule)
+		}
+	}
+	if vNondetBool("github") {
+		rootValues.output = gitHub
+	}
+	if vParam("cmd") == 0 {
+		performUpdate(true, ctxt)
+		vAssert(false, "C16 regex update --all ends with exit status 0 although one rule has no unique rules file")
+	} else {
+		err := performCompare(true, ctxt)
+		vAssert(err != nil, "C16 regex compare --all ends with exit status 0 although one rule has no unique rules file")
+	}
 }
